@@ -325,3 +325,8 @@ Definition run_c10 (dt : bool) (e : env) (s : schema) (v : pyval) : string :=
   | WOk a => "W:" ++ tohex (wire a) ++ (if floats_ok a then "" else ";FBAD")
   | WErr => "E" | WUnspec => "U" | WFuel => "FUEL"
   end.
+
+(* option records as the harness writes them (same as model/Harness.v; repeated here so that the C09/C10 checks do
+   not depend on that file) *)
+Definition mkw (a b c : bool) : wopts := {| strict := a; strict_allow_default := b; disable_tuple := c |}.
+Definition mkr (a b c d : bool) : ropts := {| ret_rec := a; ret_rec_override := b; ret_named := c; ret_named_override := d |}.
